@@ -369,6 +369,8 @@ def d7(ctx, prog):
 
 
 def run(ctx, prog):
+    from .. import universe as _uni0
+    _uni0.inline_base_entry_points(ctx, prog)
     ctx.rule('C02-D1', 'run(): process(<loop batch>) exactly once per iteration before _batch_loop_compute, no early exit, _final_compute after the loop reaching compute_results')
     ctx.rule('C02-D2', 'samples and intermediate values come from the same batch object / same sub trace set')
     ctx.rule('C02-D3', 'frame on the sample axis first, then self.preprocesses in list order, chained; frame and list travel unchanged')
